@@ -286,8 +286,78 @@ def make_warmup_resume(n, W1, W2):
                       theory="QF_NRA", timeout_ms=20000, max_paths=6000)
 
 
+def make_kernel_zero_region(kernel, n=1):
+    """one real kernel iteration at beta > 0 when proposals may land where the likelihood is zero: such a proposal has acceptance
+    probability exactly 0 and must be rejected for *every* value of the uniform variate in [0,1) (including 0.0), so that no
+    particle with log-likelihood -inf reaches the stored state."""
+    import tempest.mcmc as mcmc
+    from tempest.state_manager import StateManager
+    from vf.engine.arr import patched_attr
+    from vf.props.mcmc_common import Callbacks, exp_as_uf, mcmc_proxy, sym_mode_stats
+    from vf.props.c07 import coherent_state
+    d = 1
+
+    def harness(ctx: PathCtx):
+        cb = Callbacks(d, blobs=False, inf=True)
+        cb0 = Callbacks(d, blobs=False, inf=False)
+        u, x, logl, _ = coherent_state(ctx, cb0, n, d, with_blobs=False)  # current particles are supported (finite log-likelihood)
+        st = StateManager(n_dim=d)
+        beta = real(ctx, "beta", lo=0, lo_strict=True, hi=1)
+        st._current.update({"u": sarr(u), "x": sarr(x), "logl": sarr(logl), "blobs": None, "assignments": np.zeros(n, dtype=int),
+                            "beta": beta, "calls": 10, "iter": 2})
+        ms = sym_mode_stats(ctx, d, 1, nu=3.0)
+        mut = mutate_mod.Mutator(state=st, prior_transform=cb.prior_transform, log_likelihood=cb.log_likelihood, pbar=None,
+                                 n_particles=n, n_dim=d, n_steps=1, n_max_steps=1, sampler=kernel)
+        stub = RandomStub(Draws(ctx), max_calls=(2 if kernel == "tpcn" else 1) * n + 2)
+        noadapt = lambda self, c, mean_accept: None
+        with exp_as_uf(), patched(mcmc, np=mcmc_proxy(stub)), patched_attr(mcmc.TPCNRunner, _adapt_sigma=noadapt, _check_convergence=lambda self, acc: True), \
+                patched_attr(mcmc.RWMRunner, _adapt_sigma=noadapt, _check_convergence=lambda self, acc: True):
+            mut.run(ms)
+        stored = list(st._current["logl"])
+        ninf = sum(1 for v in stored if isinstance(v, float) and math.isinf(v))
+        ctx.check("no-minus-inf-stored-after-a-kernel-step", z3.BoolVal(ninf == 0), detail={"stored_minus_inf": ninf})
+        return None
+
+    def replay(m, label, v):
+        """real kernel, a likelihood that is -inf on half of the cube, uniform variates forced to the model's value (and to 0.0)"""
+        from tempest.modes import ModeStatistics
+        from vf.engine.util import scripted_random
+        cands = [float(x_) for k_, x_ in m.items() if k_.startswith("rand") and not isinstance(x_, (bool, str))] + [0.0]
+        for uval in cands:
+            def ll(x):
+                x = np.atleast_2d(x)
+                out = -np.sum((x - 0.3) ** 2, axis=1)
+                return np.where(x[:, 0] > 0.5, -np.inf, out), None
+            for seed in range(40):
+                rng = np.random.RandomState(seed)
+                u0 = rng.uniform(0.3, 0.5, size=(n, d))
+                st = StateManager(n_dim=d)
+                st.update_current({"u": u0, "x": u0.copy(), "logl": ll(u0)[0], "blobs": None, "assignments": np.zeros(n, dtype=int), "beta": 0.5, "calls": 10, "iter": 2})
+                ms = ModeStatistics(np.full((1, d), 0.6), (0.05 * np.eye(d)).reshape(1, d, d), np.array([3.0]))
+                mut = mutate_mod.Mutator(state=st, prior_transform=lambda q: q, log_likelihood=ll, pbar=None, n_particles=n, n_dim=d, n_steps=1, n_max_steps=1, sampler=kernel)
+                s0 = np.random.get_state()
+                np.random.seed(seed)
+                try:
+                    with scripted_random(rand=lambda *a: np.full(a, uval)), np.errstate(all="ignore"):
+                        mut.run(ms)
+                finally:
+                    np.random.set_state(s0)
+                if np.any(np.isinf(st.get_current("logl"))):
+                    return {"reproduced": True, "signature": f"kernel:{kernel}:zero-likelihood-proposal-accepted", "payload": {"uniform_variate": uval, "seed": seed},
+                            "what": f"{kernel} step with the uniform variate equal to {uval!r}: a proposal with log-likelihood -inf (acceptance probability 0) was accepted and stored"}
+        return {"reproduced": False, "what": "zero-likelihood proposals were rejected for the model's uniform variate and for 0.0"}
+
+    return Obligation(f"kernel-zero-region-{kernel}-n{n}", harness, replay=replay,
+                      encodes=[mutate_mod.Mutator.run, mcmc.BaseMCMCRunner.run],
+                      bounds=f"one kernel iteration, {n} walker(s), d=1, symbolic zero-likelihood region (uninterpreted predicate of the point), all uniform variates in [0,1)",
+                      stubs=["np.random.* -> symbolic draws", "callbacks -> uninterpreted functions; LL returns -inf where the predicate holds", "np.exp -> uninterpreted on reals, exp(-inf) = 0",
+                             "_adapt_sigma -> no-op, _check_convergence -> True"], allow_bound="paths needing more proposal draws than the budget are cut",
+                      theory="QF_UFNRA", timeout_ms=20000, max_paths=3000)
+
+
 def obligations(tier):
     if tier == "quick":
-        return [make_warmup_run(2, 2), make_warmup_run(2, 3), make_warmup_run(3, 2), make_warmup_run(2, 3, dynamic=True), make_warmup_resume(2, 1, 2)]
+        return [make_warmup_run(2, 2), make_warmup_run(2, 3), make_warmup_run(3, 2), make_warmup_run(2, 3, dynamic=True), make_warmup_resume(2, 1, 2), make_kernel_zero_region("rwm"), make_kernel_zero_region("tpcn")]
     return [make_warmup_run(2, 2), make_warmup_run(2, 3), make_warmup_run(3, 2), make_warmup_run(3, 3), make_warmup_run(2, 4),
-            make_warmup_run(2, 3, dynamic=True), make_warmup_run(3, 2, dynamic=True), make_warmup_resume(2, 1, 2), make_warmup_resume(2, 2, 2), make_warmup_resume(3, 1, 1)]
+            make_warmup_run(2, 3, dynamic=True), make_warmup_run(3, 2, dynamic=True), make_warmup_resume(2, 1, 2), make_warmup_resume(2, 2, 2), make_warmup_resume(3, 1, 1),
+            make_kernel_zero_region("rwm"), make_kernel_zero_region("tpcn"), make_kernel_zero_region("rwm", n=2)]
